@@ -171,7 +171,7 @@ fn parse_total(n: usize) {
     }
 }
 
-// @ob id=O13.3 props=C13 also=C07 tier=quick kind=bounded bound="every byte string of length 0..=4 that is valid UTF-8 (2-, 3- and 4-byte sequences included)" weight=light fn="FromStr for ChessMove,FromStr for Square" desc="totality on non-ASCII text: neither parser panics on any valid UTF-8 string of up to 4 bytes (char-boundary slicing, chars().last(), Vec<char> indexing)"
+// @ob id=O13.3 props=C13 also=C07 tier=thorough kind=bounded bound="every byte string of length 0..=4 that is valid UTF-8 (2-, 3- and 4-byte sequences included)" weight=light fn="FromStr for ChessMove,FromStr for Square" desc="totality on non-ASCII text: neither parser panics on any valid UTF-8 string of up to 4 bytes (char-boundary slicing, chars().last(), Vec<char> indexing)"
 #[kani::proof]
 #[kani::unwind(9)]
 fn c13_parse_total_utf8_4() {
@@ -185,50 +185,29 @@ fn c13_parse_total_utf8_5() {
     parse_total(5);
 }
 
-// @ob id=O13.4 props=C13 also=C07 tier=quick kind=bounded bound="4 arbitrary ASCII bytes + one arbitrary Unicode scalar value (1-4 bytes) + optionally one more ASCII byte; and 1 ASCII byte + one arbitrary scalar for squares" weight=light fn="FromStr for ChessMove,FromStr for Square" desc="totality where slicing by byte offsets could cut a character: a well-formed or malformed 4-byte move prefix followed by ANY character (multi-byte included) and possibly a trailing byte never makes ChessMove::from_str panic, and if it succeeds the rendering is a prefix of the input; likewise a file letter followed by any character for Square::from_str"
+// @ob id=O13.4 props=C13 also=C07 tier=quick kind=bounded bound="two arbitrary VALID squares (4 ASCII bytes) followed by one arbitrary Unicode scalar value (1-4 bytes)" weight=light fn="FromStr for ChessMove" desc="totality where slicing by byte offsets could cut a character: a well-formed 4-byte move prefix followed by ANY character (multi-byte included) never makes ChessMove::from_str panic; if it succeeds the squares are those of the prefix and a promotion is reported only for a trailing q/r/n/b"
 #[kani::proof]
 #[kani::unwind(12)]
 fn c13_parse_total_tail_char() {
-    let mut buf = [0u8; 10];
-    let head: [u8; 4] = kani::any();
-    let mut i = 0;
-    while i < 4 {
-        kani::assume(head[i] < 128);
-        buf[i] = head[i];
-        i += 1;
-    }
+    let mut buf = [0u8; 8];
+    let (a, b) = (any_sq_u8(), any_sq_u8());
+    buf[0] = b'a' + (a & 7);
+    buf[1] = b'1' + (a >> 3);
+    buf[2] = b'a' + (b & 7);
+    buf[3] = b'1' + (b >> 3);
     let c: char = kani::any();
     let n = c.encode_utf8(&mut buf[4..8]).len();
-    let mut len = 4 + n;
-    if kani::any() {
-        let t: u8 = kani::any();
-        kani::assume(t < 128);
-        buf[len] = t;
-        len += 1;
-    }
-    let s = unsafe { std::str::from_utf8_unchecked(&buf[..len]) };
-    if let Ok(m) = ChessMove::from_str(s) {
-        let (a, b) = (m.get_source().to_int(), m.get_dest().to_int());
-        assert!(buf[0] == b'a' + (a & 7) && buf[1] == b'1' + (a >> 3) && buf[2] == b'a' + (b & 7) && buf[3] == b'1' + (b >> 3));
-        match m.get_promotion() {
-            None => {}
-            Some(p) => {
-                let l = match p {
-                    Piece::Queen => b'q',
-                    Piece::Rook => b'r',
-                    Piece::Knight => b'n',
-                    _ => b'b',
-                };
-                assert!(buf[4] == l);
+    let s = unsafe { std::str::from_utf8_unchecked(&buf[..4 + n]) };
+    match ChessMove::from_str(s) {
+        Ok(m) => {
+            assert!(m.get_source().to_int() == a && m.get_dest().to_int() == b);
+            match m.get_promotion() {
+                None => assert!(n != 1 || !(c == 'q' || c == 'r' || c == 'n' || c == 'b')),
+                Some(p) => assert!(n == 1 && c == (match p { Piece::Queen => 'q', Piece::Rook => 'r', Piece::Knight => 'n', _ => 'b' })),
             }
         }
+        Err(_) => assert!(n == 1),
     }
-    // squares: one ASCII byte followed by any character
-    let mut sb = [0u8; 6];
-    sb[0] = head[0];
-    let n2 = c.encode_utf8(&mut sb[1..5]).len();
-    let s2 = unsafe { std::str::from_utf8_unchecked(&sb[..1 + n2]) };
-    let _ = Square::from_str(s2);
 }
 
 // @ob id=O13.canary props=C13 tier=quick kind=canary fn="FromStr for Square" desc="deliberately false: Square::from_str accepts every 2-byte ASCII string — must FAIL"
